@@ -161,7 +161,7 @@ func c01InFragment(es []Ev) bool {
 // in the sub-fragment on which the decoded stream is proved to be accepted by the validator again
 // (CbeRoundtrip.RulesPart.c01r_body)? On top of c01InFragment: no zero written as a float or decimal,
 // whole arrays only when they take the short form, no string-like / media / custom events in one call,
-// chunked arrays with at most one, non-empty, data event per chunk and not eligible for the short form.
+// chunked arrays (any number of data events per chunk) not eligible for the short form.
 func c01InRulesFragment(es []Ev) bool {
 	if !c01InFragment(es) {
 		return false
@@ -194,16 +194,8 @@ func c01InRulesFragment(es []Ev) bool {
 			for j < len(es) && es[j].K == "ac" {
 				n, more := es[j].N, es[j].B
 				j++
-				cnt := 0
 				for j < len(es) && es[j].K == "ad" {
-					if len(es[j].Data) == 0 {
-						return false
-					}
-					cnt++
 					j++
-				}
-				if cnt > 1 {
-					return false
 				}
 				if nchunks == 0 {
 					firstN, firstMore = n, more
